@@ -382,7 +382,8 @@ def check_sites(F, rep, rule, entries, floor):
     rep.floor(rule, "explicit-failure-sites", len(sites), floor)
     groups = {}
     for (fn, kind, ordn), s in sites.items():
-        groups.setdefault((fn, kind), []).append(s)
+        # a construct inside a closure belongs to the function the closure is written in (`for` body <-> `fold` closure)
+        groups.setdefault((re.sub(r"::\{closure#\d+\}", "", fn), kind), []).append(s)
     for (fn, kind), ss in sorted(groups.items()):
         short = fn.replace(P, "")
         row = T.ROWS.get((short, kind))
